@@ -58,6 +58,34 @@ pub fn gen_tree<C: Combo>(rng: &mut Rng, height: u32, leaves: &mut Leaves<C>, sm
     leaves.kinds.push(kind);
     return Tree::Leaf(leaves.mocs.len() - 1);
   }
+  // 1 in 6: a binary operator over `degrade(leaf A)` and a leaf related to A (touching / just after /
+  // just before A), in either order: hint-driven fast paths fed by an adapter that changes the ranges
+  if !small && rng.chance(1, 6) {
+    let d = 1 + rng.below(max_depth as u64) as u8;
+    let a = random_moc_ranges::<C::T, C::Q>(rng, d, 4);
+    let db = rng.below(max_depth as u64 + 1) as u8;
+    let b = related::<C>(rng, db, &a);
+    let nd = rng.below(d as u64) as u8;
+    for (dd, rs) in [(d, a), (db, b)] {
+      let m: RangeMOC<C::T, C::Q> = mk_moc(dd, &rs);
+      let mut kind = rng.below(N_KINDS);
+      if kind == 5 && m.n_depth_max_cells().to_u64_idx_safe() > 4096 {
+        kind = 1;
+      }
+      leaves.mocs.push(m);
+      leaves.kinds.push(kind);
+    }
+    let ia = leaves.mocs.len() - 2;
+    let x = Box::new(Tree::Degrade(nd, Box::new(Tree::Leaf(ia))));
+    let y = Box::new(Tree::Leaf(ia + 1));
+    let (x, y) = if rng.chance(1, 2) { (x, y) } else { (y, x) };
+    return match rng.below(4) {
+      0 => Tree::And(x, y),
+      1 => Tree::Or(x, y),
+      2 => Tree::Xor(x, y),
+      _ => Tree::Minus(x, y),
+    };
+  }
   let mut sub = |rng: &mut Rng, leaves: &mut Leaves<C>| Box::new(gen_tree::<C>(rng, height - 1, leaves, small));
   match rng.below(8) {
     0 | 1 => {
